@@ -4,7 +4,8 @@ import json, os
 V = os.path.dirname(os.path.dirname(os.path.abspath(__file__)))
 
 TB = ("Trusted: Coq 8.16.1 kernel + vm_compute; no axioms (Print Assumptions: closed); hand-written Gallina model tied to "
-      "/repo by differential execution (extracted OCaml via ExtrOcamlBasic vs the crate in checked and release builds); "
+      "/repo by differential execution (extracted OCaml via ExtrOcamlBasic vs the crate built three ways: checked, release, release with target-cpu=native) and by "
+      "a translator run on every check (constants, tables, Keccak body, scalar kernels of reduce.rs/rounding*.rs); "
       "Rust wrap/shift/cast semantics as modelled in coq/Base.v.")
 
 CHECKS = {
@@ -28,22 +29,24 @@ CHECKS = {
         "SampleInBall, w' characterised by NTT(w') = A^ o NTT(z) - NTT(c) o NTT(t1 2^d), UseHint, w1Encode, challenge comparison), and that decision is unique; accepts every "
         "spec-valid signature; API entry points = specification on the framed message; plus the explicit strictness lemmas. Not provable: termination of the two rejection samplers. "
         "Tied to the code by executing crate = independent Verify_internal = model on genuine signatures, another signer's signatures, every hint-section defect (hash-consistent near-misses), "
-        "signatures from a signer skipping the z test incl. z exactly at +-(gamma1-beta), boundary accepts, random bytes.",
+        "signatures from a signer skipping the z test incl. z exactly at +-(gamma1-beta), signatures from a signer that alters one byte of the commitment hash, boundary accepts incl. a "
+        "committed corpus and a live search of signatures with exactly omega hints, random bytes.",
    ref="DESIGN.md section 3 C03 and 12.2", technique="Coq proof (model Verify = specification) + differential execution with crafted hash-consistent near-misses"),
  "C04": dict(
    text="Coq theorem (six sets, EVERY 32-byte seed): whenever key generation returns, it returns byte for byte the key pair of the specification's KeyGen (Dilithium 3.1 / FIPS 204 "
         "KeyGen_internal incl. the k,l domain separation; transcribed in PKeygen.v with NTT as evaluation at the roots and t characterised by NTT(t - s2) = A^ o NTT(s1)), with the standard "
         "sizes, drawing nothing; the specification is a function of the seed; unseeded generation is that function of the 32 bytes drawn; same rho, tr = H(pk), t = A s1 + s2 in R_q with s "
         "within +-eta; key generation never panics. Not provable: termination of the rejection samplers (relational spec, model fuel). Tied to the six sign/*.rs and API files by executing "
-        "crate = independent KeyGen (Python, hashlib) on ~36 000 seeds per run, = model on a subset, scripted/recorded RNG, algebraic relation on decoded keys.",
+        "crate = independent KeyGen (Python, hashlib) on ~36 000 seeds per run, = model on a subset, scripted/recorded RNG, algebraic relation on decoded keys, a committed corpus of seeds that "
+        "need a third SHAKE block in the eta=4 sampler, special seeds through the API wrappers, over-long dirty caller buffers.",
    ref="DESIGN.md section 3 C04 and 12.2", technique="Coq proof (model KeyGen = specification) + differential execution vs independent KeyGen at volume"),
  "C05": dict(
    text="Coq theorem (six sets, every key whose decoded s2 is within +-eta - every key from key generation -, every message, context, pre-hash, mode): whenever signing returns, it returns "
         "byte for byte the signature of the specification's Sign (Dilithium 3.1 / FIPS 204 Alg. 7, transcribed in PSignSpec.v with the attempt counter explicit) for the bytes drawn: none "
         "(deterministic), 32 as rnd in rho''=H(K||rnd||mu) (hedged ML-DSA), 64 as rho' (randomized Dilithium); the specification's signature is unique; API wrappers = specification on "
         "the framed M'. Includes the equivalence of the code's tests with the specification's (low-bits lemma with ||c s2|| <= beta, centred norms, MakeHint). Not provable: termination. "
-        "Tied to the code by executing crate = independent Sign_internal on the message-length/context/mode grid, scripted randomness, crafted secret keys forcing rare rejection causes; = "
-        "model on cheap cases.",
+        "Tied to the code by executing crate = independent Sign_internal on the message-length/context/mode grid, scripted randomness, crafted secret keys forcing rare rejection causes incl. a committed corpus of 37..165-rejection chains (ExpandMask counter above 255) and of "
+        "c*t0-only rejections; = model on cheap cases.",
    ref="DESIGN.md section 3 C05 and 12.2", technique="Coq proof (model Sign = specification) + differential execution vs independent Sign_internal"),
  "C06": dict(
    text="Coq theorems: for every key from key generation, message and mode, whatever the signer returns is sigEncode(ctilde, z, h) of an attempt of the SPECIFICATION with z = y + c s1, "
@@ -91,14 +94,16 @@ CHECKS = {
    ref="DESIGN.md section 3 C13", technique="Coq proof (parametricity of the butterfly network + computed Vandermonde matrix) + differential execution"),
  "C14": dict(
    text="Machine-checked proof (Coq) that the model's montgomery_reduce, reduce32 and caddq meet the stated congruence and range on their whole documented domains (all inputs, not samples), "
-        "that the reduce32 domain edge is real, and that q*QINV = 1 mod 2^32; tied to reduce.rs by executing both on every domain boundary, random inputs and sweeps (caddq exhaustively in the "
+        "that the reduce32 domain edge is real, and that q*QINV = 1 mod 2^32; the same theorems are stated about the text of reduce.rs as translated into Gallina on every run "
+        "(GenK.v; translated function = model function for all arguments), so an edit that changes a kernel's meaning on a single input breaks a proof obligation; also tied to reduce.rs by executing both on every domain boundary, random inputs and sweeps (caddq exhaustively in the "
         "thorough tier) in checked and release builds, with an independent oracle.",
-   ref="DESIGN.md section 3 C14", technique="Coq proof (lia over wrap_spec) + differential execution model vs crate"),
+   ref="DESIGN.md section 3 C14", technique="Coq proof (lia over wrap_spec) about the model and about the translated source + differential execution model vs crate"),
  "C15": dict(
    text="Coq proofs that power2round, decompose, use_hint and make_hint equal the FIPS 204 functions for EVERY a in [0,q) and both gamma2 (magic-constant step by a kernel-checked sweep of all "
-        "65473 intermediates), that the signer's hint makes use_hint return exactly w1 for every w1 and |a0| < 2*gamma2, and that the bit is MakeHint; decompose is a bijection. Tied to "
+        "65473 intermediates), that the signer's hint makes use_hint return exactly w1 for every w1 and |a0| < 2*gamma2, and that the bit is MakeHint; decompose is a bijection; the same statements hold of the text of rounding.rs and rounding/lvl{2,3,5}.rs as translated into "
+        "Gallina on every run (GenK.v; each translated copy = the model's function for all arguments). Tied to "
         "rounding*.rs / poly / polyvec by boundary cases, sweeps (exhaustive over [0,q) and all (w1,a0) in the thorough tier: 1.3*10^8 inputs) and an independent oracle.",
-   ref="DESIGN.md section 3 C15", technique="Coq proof (finite vm_compute sweep + lia) + exhaustive differential sweeps"),
+   ref="DESIGN.md section 3 C15", technique="Coq proof (finite vm_compute sweep + lia) about the model and about the translated source + exhaustive differential sweeps"),
  "C16": dict(
    text="Coq theorems: each of the 8 coefficient encoders emits exactly FIPS 204 SimpleBitPack/BitPack (defined on bit lists) of the standard length for every in-range polynomial, decoders are "
         "total, equal BitUnpack, invert the encoders (and conversely for the bijective codecs), untouched bytes preserved; pk/sk containers = pkEncode/skEncode with round trips; the signature's "
